@@ -235,8 +235,10 @@ class Runtime:
     del self.actlog[:]
 
 
-def build(spec, decorate=None, on_action=None, budget=30):
-  """Build real handlers.  `decorate` overrides spec["spy"]."""
+def build(spec, decorate=None, on_action=None, budget=30, methods_ok=False):
+  """Build real handlers.  `decorate` overrides spec["spy"].  With methods_ok the caller promises
+  to call rt.attach(chart) when the runtime has one (decorated states written as methods of the
+  chart's own class)."""
   from miros.event import signals, return_status
   from miros.hsm import spy_on as deco
 
@@ -356,6 +358,26 @@ def build(spec, decorate=None, on_action=None, budget=30):
     handler.__qualname__ = state_name(i)
     return handler
 
+  if methods_ok and spec.get("style") == "bound" and decorate is True and not spec.get("names"):
+    # decorated state functions written as METHODS OF THE CHART'S CLASS (transitions name their
+    # targets as self.<state>): every mention makes a new bound-method object
+    methods = {}
+    for i in range(spec["n"]):
+      h = make(i)
+      rt.inner.append(h)
+
+      def as_state_method(self_, e, _h=h):
+        return _h(self_, e)
+      as_state_method.__name__ = as_state_method.__qualname__ = state_name(i)
+      methods[state_name(i)] = deco(as_state_method)
+    late = FreshBound(None, [state_name(i) for i in range(spec["n"])])
+    rt.fns = fns = late
+
+    def attach(chart):
+      chart.__class__ = type(chart.__class__.__name__, (chart.__class__,), methods)
+      late.holder = chart
+    rt.attach = attach
+    return rt
   if spec.get("style") == "bound" and not decorate and not spec.get("names"):
     # undecorated state functions written as methods of a helper object
     class VfStates:
